@@ -404,6 +404,11 @@ class Execution:
 
         programs = {tid: make_prog(tid, prog) for tid, prog in enumerate(op["progs"])}
         results = sched.run(programs)
+        for tid, prog in enumerate(op["progs"]):
+            if tid not in results:
+                # the thread never came back (deadlock inside the code under test)
+                results[tid] = [{"s": "budget", "why": "deadlock", "hooks": []} for _ in prog]
+        self.stats["lock_waits"] = self.stats.get("lock_waits", 0) + sched.probes.get("lock_waits", 0)
         self.stats["conc"] += 1
         self.stats["switches"] += sched.switches
         self.single_fired[idx] = getattr(schedule, "fired", None)
